@@ -951,7 +951,13 @@ func (h *c10H) execMeta(line string, w []string) {
 			}
 			ep := "_"
 			if m.Count(indexmeta.MetadataKey_Epoch) > 0 {
-				ep = zz.Guard(func() string { v, _ := m.GetUint64(indexmeta.MetadataKey_Epoch); return fmt.Sprint(v) })
+				ep = zz.Guard(func() string {
+					v, ok := m.GetUint64(indexmeta.MetadataKey_Epoch)
+					if !ok {
+						return "invalid" // present but not a uint64 (shorter than 8 bytes)
+					}
+					return fmt.Sprint(v)
+				})
 			}
 			root := "_"
 			if v, ok := m.Get(indexmeta.MetadataKey_RootCid); ok {
